@@ -96,6 +96,54 @@ CLAIMED = {
        'end-to-end through the real Cloader.upload_buffer/write_flash with every image byte symbolic and lost/refused/duplicated flash-write replies; upload_buffer tiling; write_flash retry protocol.',
   note='Page sizes 1..4 (quick) / 1..8 and 1024 (thorough), <= 6-12 pages; refusal is asserted as no flash-write command reaching the target. zip/manifest handling, deck flashing and loss of buffer-load packets are outside.',
   tech=TECH, ref='DESIGN.md §3 C12'),
+
+ 'C02': dict(
+  text='SEQUENTIALISED connection lifecycle: a real Crazyflie (platform service, log, memory, param, TOC fetchers, link statistics, SyncCrazyflie) connected to a device model through a '
+       'fake driver chosen by the real get_link_driver; every thread body is stepped as a task by one scheduler. The solver chooses the kind and position of one or two deviations from the '
+       'nominal schedule (link error from the driver task, link error raised inside link.send_packet while _send_lock is held, close_link, duplicated or held-back reply, ping task first) and the '
+       'whole deviation space is exhausted. Asserts the callback grammar per attempt, no lock left held, no thread dead, no application call blocked for ever (incl. SyncCrazyflie.open_link/close_link), '
+       'tables complete at connected, and that the same object connects again.',
+  note='RESTRICTED: context switches only at blocking calls (receive, queue get, lock acquire, sleep, join); free-running OS-thread interleavings and wall-clock bounds are outside solver-based checking here. '
+       'All solver-chosen inputs are positions/kinds, so harnesses are labelled symbolic=False (exhaustive enumeration by the solver, real code under it). Tables: 1 log + 1-2 parameter entries; link without resend timers (C10).',
+  tech='solver-enumerated deviation schedules over the real code (CrossHair as a library, z3 deciding feasibility of each fork); exhaustive within the stated bounds', ref='DESIGN.md §3 C02, §4'),
+ 'C04': dict(
+  text='Param.set_value / get_value / update callbacks for every firmware type with symbolic idents, access bits, values (ints in +-2^70, every IEEE double) and device bit patterns, both protocol generations; '
+       'set_value_raw layout; misc requests (persistent get_state/store/clear, default value) incl. three outstanding requests with symbolic idents and replies; the real _ParamUpdater and '
+       '_ExtendedTypeFetcher stepped as tasks with solver-chosen schedules of issue / step / reply events, duplicated replies and unsolicited notifications.',
+  note='<= 3 (quick) / 4 (thorough) requests per schedule; str() of a symbolic number is modelled by an injective numeric text (harness-side, symbolic mode only); preemption between bytecodes, FP16 reads and error replies to reads/writes are outside.',
+  tech=TECH, ref='DESIGN.md §3 C04'),
+ 'C13': dict(
+  text='Engine B (bit-precise interpretation of the current source over BV/IEEE terms, one solver query per control path): fp16_to_float over all 65,536 patterns against z3\'s native Float16, also through the '
+       'lighthouse angle-stream decoder; decompress_quaternion per (largest index x sign) path against the firmware layout plus a lemma tying the arithmetic order to the specification value; compress_quaternion '
+       '(normalised-input precondition): index/sign/magnitude layout on all paths and the non-linear 9-bit magnitude bounds; trajectory encoders; RGB565 in both LED memories (with a division lemma); '
+       'Engine A: range reports, CompressedStart packing with overflow refusal.',
+  note='compress_quaternion is decided for already-normalised inputs (norm replaced by 1.0, |sum of squares - 1| <= 1e-6); quick tier attempts 1 of the 24 magnitude-bound queries (about 4 min each for z3), thorough all. '
+       'compress o decompress composition is argued in DESIGN, not solved. numpy summation order inside np.linalg.norm is outside. Translator validated against the real functions on concrete vectors every run.',
+  tech='AST -> SMT (bit-vector + IEEE floating point) translation of the real functions regenerated on every run, z3/cvc5 queries per control path; CrossHair for the byte-level packers', ref='DESIGN.md §3 C13'),
+ 'C14': dict(
+  text='EEPROM image validity <=> token and checksum over the version-selected range with all 21 bytes symbolic, single-byte corruption, write/read round trip (float32 trims bit-exact, 40-bit address); '
+       '1-wire images with symbolic header, element contents and CRC bytes (CRC-32 modelled symbolically), round trip and validity; lighthouse geometry/calibration memory layout and YAML file objects; '
+       'parameter files; Poly4D, compressed trajectory, LED timing layouts; deck-memory info sections; loco anchor lists.',
+  note='Element ids/lengths and which float is symbolic are forked, contents symbolic; PyYAML and the file system are replaced by lossless stores; NaN/inf and unknown 1-wire element ids are outside.',
+  tech=TECH, ref='DESIGN.md §3 C14'),
+ 'C15': dict(
+  text='RESTRICTED to the rigid-motion laws of Pose: the real Pose code runs on numpy object arrays of symbolic reals; inverse (point and pose), associativity, composition == sequential application, '
+       'composition stays orthonormal, scaling and input immutability are non-linear real arithmetic obligations proved through chains of small lemmas (z3, cvc5 as fallback).',
+  note='Decided over the reals. V1<->V2<->Cartesian<->projection conversions, unit length of the float32 Cartesian vector, rotation-vector/quaternion views (scipy) and the solver\'s vectorised projection are NOT decided '
+       '(transcendental / compiled code). Orthogonal matrices are 9 reals with R^T R = I (and R R^T = I where the row form is needed).',
+  tech='symbolic execution of the real numpy code on object arrays (CrossHair real-number model) + NRA obligations discharged by z3/cvc5', ref='DESIGN.md §3 C15, §4'),
+ 'C16': dict(
+  text='RESTRICTED to everything around the optimiser: with _find_transformation stubbed by an arbitrary symbolic transformation, align applies the one returned transformation to every base station, '
+       'the returned transformation is flips o raw, rigid application preserves distances and relative orientation, the de-flip decision logic meets its postconditions, _scale_system multiplies every translation '
+       'by the one factor and leaves rotations and inputs untouched, scale_fixed_point\'s factor is correct, intersection points lie on ray and plane.',
+  note='That the least-squares search converges for misalignments below 30 degrees is NOT decided (compiled scipy optimiser). pi-flips are scipy\'s float matrices (1e-9 slack in the de-flip postconditions).',
+  tech='symbolic execution of the real numpy code on object arrays (CrossHair real-number model) + NRA obligations discharged by z3/cvc5', ref='DESIGN.md §3 C16, §4'),
+ 'C17': dict(
+  text='MotionCommander and PositionHlCommander with a virtual clock (symbolic start instant), the real _SetPointThread stepped as a task under eager and lazy schedules, recording commanders; programs of 1-2 (quick) / 3-4 '
+       '(thorough) primitives with solver-chosen kinds and symbolic real distances, angles, (in thorough) velocities, and an exception flag. Asserts stop then notify-stop at the end with nothing after, stream period, '
+       'height integration, velocity x time == displacement, reported position and go_to targets/durations.',
+  note='Decided over the reals (float rounding of the height integration is outside); primitives last <= 6 update periods (<= 3 for pairs); negative velocities/rates are outside.',
+  tech=TECH, ref='DESIGN.md §3 C17'),
 }
 NOT_YET = {}
 NOT_APPLICABLE = {
